@@ -91,6 +91,16 @@ def run(res, tier, seed, replay):
             seqs.append([0] + [rng.choice(nesty if rng.random() < 0.8 else alphabet) for _ in range(n)])
         for _ in range(3000 if quick else 60000):
             seqs.append(K.gen_nested_items(rng, budget=rng.randint(4, 16 if quick else 40)))
+    if not replay:
+        # a directive that has a body opens a parenthesis which is closed at once (or after one child), then every kind: where
+        # the next directive goes after such a ')' (the body may be written inside the parentheses: the variants below)
+        prefixes = [[0, "P8"], [0, "P8", 15], [0, "P8", 14], [0, 7], [0, 7, 8], [0], [0, 7, 24, 25], [0, 7, 8, 15]]
+        for pre in (prefixes if not quick else prefixes[:5]):
+            for b in K.BODY_INSIDE:
+                for k2 in KINDS + ["P9"]:
+                    seqs.append(pre + [b, "(", ")", k2])
+                    if not quick or k2 in (13, 17, 22, 15, 16, 29):
+                        seqs.append(pre + [b, "(", 17, ")", k2])
     docs = [K.render_items(s) for s in seqs]
     # the same sequences with the body of a directive written INSIDE the parentheses it opens (`200` / `(` / `{}` / `)`):
     # the same items, so the same forest and the same verdict by the rule
